@@ -363,6 +363,19 @@ class PartialJoin(UnaryOperation):
                 # include the columns added by the join.  Note that because we
                 # require common_columns to be explicit at this point, the
                 # projection cannot change them.
+                hidden_columns = current.target.columns - current.columns
+                if not hidden_columns.isdisjoint(self.fixed.columns):
+                    # Joining before the projection would mix up the columns
+                    # it drops with same-named columns of the fixed operand.
+                    return UnaryCommutator(
+                        first=None,
+                        second=current.operation,
+                        done=False,
+                        messages=(
+                            f"{current.operation} drops columns {set(hidden_columns & self.fixed.columns)} "
+                            f"that are also present in {self.fixed}",
+                        ),
+                    )
                 return UnaryCommutator(
                     first=self,
                     second=Projection(frozenset(self.applied_columns(current))),
